@@ -62,6 +62,9 @@ type link struct {
 	tap func(b []byte)
 	// onSend sees every packet the endpoint offers, before any fault.
 	onSend func(b []byte)
+	// recvErr: the next recv call (or the one that is blocked right now)
+	// returns this error once (a transport that reports a failure).
+	recvErr error
 	// sendLag: the send callback returns only this long after the packet is
 	// on its way (a transport whose write call completes late).
 	sendLag time.Duration
@@ -222,9 +225,25 @@ func (l *link) send(ctx context.Context, b []byte) error {
 	return nil
 }
 
+func (l *link) failRecv(err error) {
+	l.mu.Lock()
+	l.recvErr = err
+	l.mu.Unlock()
+	select {
+	case l.wakeup <- struct{}{}:
+	default:
+	}
+}
+
 func (l *link) recv(ctx context.Context) ([]byte, error) {
 	for {
 		l.mu.Lock()
+		if err := l.recvErr; err != nil {
+			l.recvErr = nil
+			l.mu.Unlock()
+			l.rc.Fault("transport-recv-error")
+			return nil, err
+		}
 		now := l.rc.Now()
 		if len(l.q) > 0 {
 			head := l.q[0]
